@@ -78,7 +78,8 @@ type spec struct {
 	Commented bool              `json:"commented,omitempty"`
 	Basm      string            `json:"basm,omitempty"` // front-end produced machine: BASM source text
 	NilSimbox bool              `json:"nilsimbox,omitempty"`
-	IOmap     map[string]string `json:"iomap,omitempty"` // board flavors: machine IO -> board port
+	IOmap     map[string]string `json:"iomap,omitempty"`   // board flavors: machine IO -> board port
+	OpOrder   string            `json:"oporder,omitempty"` // "rev" | "rot": the machine is saved (Jsoner), the "Op" array of every domain reversed / rotated, and loaded again (Dejsoner) - the path of `bondmachine -bondmachine-file`, which does not sort
 }
 
 func allOps() map[string]procbuilder.Opcode {
@@ -188,6 +189,30 @@ func buildBM(s *spec) (*bondmachine.Bondmachine, *bondmachine.Config, error) {
 	for _, b := range s.Bonds {
 		bm.Add_bond([]string{b[0], b[1]})
 	}
+	if s.OpOrder != "" {
+		bmj := bm.Jsoner()
+		for _, d := range bmj.Domains {
+			n := len(d.Op)
+			ops := append([]string{}, d.Op...)
+			for i := range ops {
+				switch s.OpOrder {
+				case "rev":
+					d.Op[i] = ops[n-1-i]
+				case "rot":
+					d.Op[i] = ops[(i+1)%n]
+				}
+			}
+		}
+		js, err := json.Marshal(bmj)
+		if err != nil {
+			return nil, nil, err
+		}
+		back := new(bondmachine.Bondmachine_json)
+		if err := json.Unmarshal(js, back); err != nil {
+			return nil, nil, err
+		}
+		bm = back.Dejsoner()
+	}
 	return bm, conf, nil
 }
 
@@ -203,6 +228,72 @@ var signedFnRe = regexp.MustCompile(`\$(un)?signed\b`)
 func unsign(src string) string {
 	src = signedDeclRe.ReplaceAllString(src, "$1$2")
 	return signedFnRe.ReplaceAllString(src, "")
+}
+
+// generate-for loops of the one shape /repo emits,
+//
+//	genvar X; generate for (X = a; X < b; X = X + 1) begin <items without declarations> end endgenerate
+//
+// with literal bounds, are unrolled textually before parsing (b - a copies of the items, X replaced by
+// the number): that is what elaboration of a generate loop does when the block declares nothing.  Any
+// other use of generate / genvar is left alone and rejected by the reader (file not lintable).
+var genHeadRe = regexp.MustCompile(`genvar\s+(\w+)\s*;\s*generate\s*for\s*\(\s*(\w+)\s*=\s*(\d+)\s*;\s*(\w+)\s*<\s*(\d+)\s*;\s*(\w+)\s*=\s*(\w+)\s*\+\s*1\s*\)\s*begin`)
+var genDeclRe = regexp.MustCompile(`\b(reg|wire|integer|genvar|parameter|localparam)\b`)
+
+// pendingChannelHalf: a processor with wrd but not wwr (or the reverse) references the other opcode's
+// registers (wwr_ch / wrd_ch), and one with wrd / wwr but neither chc nor chw references reset_flag_ch,
+// which only chc / chw declare (undeclared) — a defect of the unchanged tree that only shows
+// once the generate loops are unrolled; reported to the integrator.  Until it is listed the files of such
+// processors are not unrolled (they stay not-lintable, as before).  Set to true afterwards.
+const pendingChannelHalf = false
+
+var genBitRe = regexp.MustCompile(`(\w+)\s*\[\s*(\w+)\s*\]\s*<=`)
+
+// ungenerate returns the unrolled text and the registers that the loop bodies assign bit-wise by the loop
+// variable (one always block per bit after unrolling: legal, but `Design.lint` counts drivers per signal)
+func ungenerate(src string) (string, bool, []string) {
+	var bitRegs []string
+	changed := false
+	for iter := 0; iter < 64; iter++ {
+		m := genHeadRe.FindStringSubmatchIndex(src)
+		if m == nil {
+			break
+		}
+		g := func(k int) string { return src[m[2*k]:m[2*k+1]] }
+		v := g(1)
+		if g(2) != v || g(4) != v || g(6) != v || g(7) != v {
+			break
+		}
+		lo, _ := strconv.Atoi(g(3))
+		hi, _ := strconv.Atoi(g(5))
+		rest := src[m[1]:]
+		e := strings.Index(rest, "endgenerate")
+		if e < 0 || hi-lo > 64 {
+			break
+		}
+		body := strings.TrimRight(rest[:e], " \t\r\n")
+		if !strings.HasSuffix(body, "end") {
+			break
+		}
+		body = body[:len(body)-3]
+		if genDeclRe.MatchString(body) {
+			break
+		}
+		for _, bmm := range genBitRe.FindAllStringSubmatch(body, -1) {
+			if bmm[2] == v {
+				bitRegs = append(bitRegs, bmm[1])
+			}
+		}
+		vr := regexp.MustCompile(`\b` + regexp.QuoteMeta(v) + `\b`)
+		var sb strings.Builder
+		for k := lo; k < hi; k++ {
+			sb.WriteString(vr.ReplaceAllString(body, strconv.Itoa(k)))
+			sb.WriteString("\n")
+		}
+		src = src[:m[0]] + sb.String() + rest[e+len("endgenerate"):]
+		changed = true
+	}
+	return src, changed, bitRegs
 }
 
 var moduleRe = regexp.MustCompile(`(?m)^\s*module\s+([A-Za-z_][A-Za-z0-9_$]*)`)
@@ -264,7 +355,7 @@ func emit(s *spec) {
 		}
 	}
 	sort.Strings(names)
-	var tbs, opaque, unsigned []string
+	var tbs, opaque, unsigned, unrolled []string
 	good := map[string]string{}
 	for _, n := range names {
 		b, err := os.ReadFile(filepath.Join(dir, n))
@@ -281,6 +372,10 @@ func emit(s *spec) {
 		if stripped := unsign(string(b)); stripped != string(b) {
 			b = []byte(stripped)
 			unsigned = append(unsigned, n)
+		}
+		if un, ok, regs := ungenerate(string(b)); ok && (pendingChannelHalf || !halfChannel(bm, n)) {
+			b = []byte(un)
+			unrolled = append(unrolled, n+":"+strings.Join(regs, ","))
 		}
 		if _, err := vlog.ParseFile(n, string(b)); err != nil {
 			cls, pos, msg := "syntax", "0:0", err.Error()
@@ -313,6 +408,9 @@ func emit(s *spec) {
 	}
 	if len(unsigned) > 0 {
 		out.Line("G %s", strings.Join(unsigned, " "))
+	}
+	if len(unrolled) > 0 {
+		out.Line("U %s", strings.Join(unrolled, " "))
 	}
 	out.Line("X %s", strings.Join(externalIP, " "))
 	if len(good) > 0 {
@@ -379,6 +477,30 @@ func describe(bm *bondmachine.Bondmachine) string {
 	}
 	js, _ := json.Marshal(d)
 	return string(js)
+}
+
+// halfChannel: is `file` the processor file pN.v of a processor with exactly one of wrd / wwr?
+func halfChannel(bm *bondmachine.Bondmachine, file string) bool {
+	m := regexp.MustCompile(`^p(\d+)\.v$`).FindStringSubmatch(file)
+	if m == nil || bm == nil {
+		return false
+	}
+	i, _ := strconv.Atoi(m[1])
+	if i >= len(bm.Processors) {
+		return false
+	}
+	wrd, wwr, chk := false, false, false
+	for _, op := range bm.Domains[bm.Processors[i]].Op {
+		switch op.Op_get_name() {
+		case "wrd":
+			wrd = true
+		case "wwr":
+			wwr = true
+		case "chc", "chw":
+			chk = true
+		}
+	}
+	return wrd != wwr || (wrd && !chk)
 }
 
 // soFacts: what the shared-object header model (BMV.So) is parameterised by, read from the built
